@@ -487,8 +487,16 @@ impl Session<'_> {
                             .await?;
                     }
                 }
-                CurrentSessionId::ToBeRenamed { .. } => {
-                    // Nothing to do.
+                CurrentSessionId::ToBeRenamed { new, .. } => {
+                    // There is no record stored against the old id, so there is
+                    // nothing to rename. The record for the new id must be created
+                    // under the same condition that applies when the id isn't cycled,
+                    // since the in-memory state is about to claim that it exists.
+                    if create_if_empty {
+                        self.store
+                            .create(&new, SessionRecordRef::empty(fresh_ttl))
+                            .await?;
+                    }
                 }
             },
             None => {
